@@ -15,6 +15,7 @@ LEVEL_TEXT = ("Dataflow and CFG-shape rules on the MIR of the scoped-variable co
               "thunk, so every read of the variable sees one value; (E2.d) none of these failures is dropped.")
 LEVEL_NOTE = ("Not decided: that equal 32-bit ids mean the same syntax node in tree-sitter (assumption: the low 32 bits of node ids are "
               "injective within a tree), and the values observed by programs.")
+LEVEL_TEXT += (" Also: (S) a strict scoped definition/assignment writes the variable map of the evaluated scope node itself (inheritance applies to reads only); (F) forcing window of the lazy scoped store: between Forcing and Forced only the cell's own values are evaluated, a re-entrant read is RecursivelyDefinedScopedVariable; (E5.var) VariableMap::add refuses every second definition whatever the mutability flags; (E6.p) all scoped definitions are forced before the lazy run returns.")
 
 
 def _good_key(a):
